@@ -72,6 +72,12 @@ fn parse_kv(data: &[u8]) -> Result<Vec<(String, u64)>, String> {
     Ok(out)
 }
 
+thread_local! {
+    /// set by history stages: the next run_counter call of this thread ends with merge(false) — the documented way of
+    /// keeping the chunk files next to the merged table
+    pub static MERGE_KEEPS_CHUNKS: std::cell::Cell<bool> = const { std::cell::Cell::new(false) };
+}
+
 pub fn run_counter(in_path: &str, out_dir: &str, cfg: &CtrCfg, ctl: Option<&Arc<Controller>>) -> CtrRun {
     let _ = std::fs::create_dir_all(out_dir);
     // files already present before the run (other runs of a history, planted stale files) are not this run's leftovers
@@ -110,7 +116,7 @@ pub fn run_counter(in_path: &str, out_dir: &str, cfg: &CtrCfg, ctl: Option<&Arc<
                 }
             }
         }
-        ctr.merge(true);
+        ctr.merge(!MERGE_KEEPS_CHUNKS.with(|c| c.get()));
     });
     let trace = ctl.map(|c| c.finish());
     let counts_raw = std::fs::read(format!("{}/kmers.counts", out_dir)).ok();
